@@ -443,4 +443,13 @@ def tasks(tier):
 
 
 def main(tier):
-  return H.standard_main(PID, tier, tasks(tier), not_covered=NOT_COVERED, structural=STRUCTURAL)
+  extra = None
+  if tier == "thorough":
+    # engine self-test: interpreter + library model vs CPython/JAX on concrete inputs (a disagreement is an engine defect)
+    from pyvc import difftest
+    n, bad = difftest.run(int(H.os.environ.get("VERIF_SEED", "0")))
+    extra = {"engine_selftest_differential": {"cases": n, "disagreements": [list(map(str, b)) for b in bad[:10]]}}
+    if bad:
+      print(f"ENGINE-ERROR property={PID}: interpreter/library model disagrees with native execution on {len(bad)} of {n} cases: {bad[0]}")
+      return 3
+  return H.standard_main(PID, tier, tasks(tier), not_covered=NOT_COVERED, structural=STRUCTURAL, extra=extra)
